@@ -478,8 +478,8 @@ impl ParsedPacket {
         match_suffix: bool,
     ) -> Result<(), Error> {
         let packet = Renamer::rename_with_raw_names(self, target_name, source_name, match_suffix)?;
-        self.packet = Some(packet);
-        let dns_sector = DNSSector::new(self.packet.take().unwrap())?;
+        // The current packet is only replaced once the new one has been validated
+        let dns_sector = DNSSector::new(packet)?;
         let parsed_packet = dns_sector.parse()?; // XXX - This can be recomputed on the fly by Renamer::rename_with_raw_names()
         self.offset_question = parsed_packet.offset_question;
         self.offset_answers = parsed_packet.offset_answers;
